@@ -354,7 +354,8 @@ impl LexiconReader {
 
         self.unresolved += resolve_a + resolve_b;
 
-        if surface.is_empty() {
+        // NUL is the key terminator of the index, it can not be a part of a surface
+        if surface.is_empty() || surface.contains('\0') {
             return rec.ctx.err(BuildFailure::EmptySurface);
         }
 
